@@ -11,7 +11,7 @@ pub fn check_permutation(ndim: usize, permutation: &[usize]) -> Result<()> {
     if permutation.len() != ndim {
         fail!("Number of permutation entries must be equal to the number of dimensions");
     }
-    let seen = vec![false; permutation.len()];
+    let mut seen = vec![false; permutation.len()];
     for &i in permutation {
         if i >= seen.len() {
             fail!(
@@ -22,6 +22,7 @@ pub fn check_permutation(ndim: usize, permutation: &[usize]) -> Result<()> {
         if seen[i] {
             fail!("Invalid permutation: index {i} found multiple times");
         }
+        seen[i] = true;
     }
     for (i, seen) in seen.into_iter().enumerate() {
         if !seen {
